@@ -402,7 +402,6 @@ func (r *run) monitor(stop, done chan struct{}) {
 
 func runRandom(sp spec) *run {
 	r := newRun(sp)
-	r.itemsMu.Lock()
 	r.items = make([]*item, sp.NItems)
 	for _, ops := range sp.Clients {
 		for _, op := range ops {
@@ -411,7 +410,7 @@ func runRandom(sp spec) *run {
 			}
 		}
 	}
-	r.itemsMu.Unlock()
+	r.publishItems()
 	stop, done := make(chan struct{}), make(chan struct{})
 	go r.monitor(stop, done)
 	for ci, ops := range sp.Clients {
